@@ -28,13 +28,20 @@ SHAPES = {
     "dc": ("DC(x=[1], y=2)", ["v.x.append(9)", "v.y = 5", "v.x = [0]", "v.z.append(1)"]),
     "tuplel": ("([1], 2)", ["v[0].append(9)", "v[0].clear()", "v[0][0] = 5"]),
     "ntl": ("NT(a=[1], b={'k': 2})", ["v.a.append(9)", "v.b['j'] = 1", "v.a.clear()", "v.b.clear()"]),
+    # hashable but mutable values (a copy must not be skipped because a value can be hashed), also inside immutable containers
+    "hdc": ("HDC(x=1, y=2)", ["v.x = 5", "v.y = 9", "v.x += 1"]),
+    "job": ("Job('a', 1)", ["v.state = 2", "v.name = 'b'", "v.state += 1"]),
+    "thdc": ("(HDC(x=1, y=2), 3)", ["v[0].x = 5", "v[0].y = 9"]),
+    "fsjob": ("frozenset({Job('a', 1)})", ["next(iter(v)).state = 2", "next(iter(v)).state += 5"]),
+    "barr": ("bytearray(b'ab')", ["v.append(99)", "v[0] = 65", "v.clear()", "v.extend(b'z')"]),
+    "ttl": ("(([1],),)", ["v[0][0].append(9)", "v[0][0].clear()"]),
     "deep": ("{'k': ([1, [2]], 3)}", ["v['k'][0].append(9)", "v['k'][0][1].append(8)", "v['x'] = 1", "v['k'][0][1].clear()"]),
 }
 OPS = ("==", "<=", ">=", "in", "[k]")
-ORDERABLE = {"list", "nlist", "tuplel"}
+ORDERABLE = {"list", "nlist", "tuplel", "barr", "ttl"}
 PREV = {"==": "[0]", "<=": "[]", ">=": "[99]", "in": "[0]", "[k]": "{'k': 0}"}
-PREV_GE = {"list": "[99]", "nlist": "[[99]]", "tuplel": "([99], 0)"}
-PREV_LE = {"list": "[]", "nlist": "[]", "tuplel": "()"}
+PREV_GE = {"list": "[99]", "nlist": "[[99]]", "tuplel": "([99], 0)", "barr": "bytearray(b'zz')", "ttl": "(([99],),)"}
+PREV_LE = {"list": "[]", "nlist": "[]", "tuplel": "()", "barr": "bytearray(b'')", "ttl": "()"}
 
 
 def bounds(tier):
@@ -83,6 +90,14 @@ NOCOPY = (
     "class BadCopy:\n    def __init__(self, n):\n        self.n = n\n    def __eq__(self, o):\n        return isinstance(o, BadCopy) and self.n == o.n\n"
     "    def __le__(self, o):\n        return self.n <= o.n\n    def __ge__(self, o):\n        return self.n >= o.n\n"
     "    def __hash__(self):\n        return 1\n    def __deepcopy__(self, memo):\n        return BadCopy(self.n + 1)\n    def __repr__(self):\n        return 'BadCopy(%d)' % self.n\n\n\n"
+)
+
+
+HASHMUT = (
+    "@dataclass(unsafe_hash=True)\nclass HDC:\n    x: int\n    y: int = 0\n\n\n"
+    "class Job:\n    def __init__(self, name, state):\n        self.name = name\n        self.state = state\n"
+    "    def __eq__(self, o):\n        return (self.name, self.state) == (o.name, o.state) if isinstance(o, Job) else NotImplemented\n"
+    "    def __hash__(self):\n        return hash(self.name)\n    def __repr__(self):\n        return 'Job(%r, %r)' % (self.name, self.state)\n\n\n"
 )
 
 
@@ -206,7 +221,7 @@ def _judge(cases):
 
     n = len(cases)
     src = P.module([_site(i, c) for i, c in enumerate(cases)], ["DC", "NT"], header="") .replace(
-        "from inline_snapshot import snapshot\n", "from inline_snapshot import snapshot\n" + NOCOPY, 1)
+        "from inline_snapshot import snapshot\n", "from inline_snapshot import snapshot\n" + NOCOPY, 1) + "\n\n" + HASHMUT
     ctx = {"src": src}
     model, _ = _model(src, n)
     flags = ["create", "fix"]
